@@ -19,10 +19,36 @@ import (
 
 func TestMain(m *testing.M) { ev.Main(m) }
 
+// encodedMode: the router under test uses UseEncodedPath; probe paths are escaped paths then and request URLs are
+// parsed from them (set per case by prop).
+var encodedMode bool
+
+func reqURL(path string) *url.URL {
+	if encodedMode {
+		if u, err := url.ParseRequestURI(path); err == nil && u.EscapedPath() == path {
+			return u
+		}
+	}
+	return &url.URL{Path: path}
+}
+
 func serve(r *rux.Router, method, path string) (int, string) {
 	rec := httptest.NewRecorder()
-	req := &http.Request{Method: method, URL: &url.URL{Path: path}, Header: http.Header{}, Proto: "HTTP/1.1"}
+	req := &http.Request{Method: method, URL: reqURL(path), Header: http.Header{}, Proto: "HTTP/1.1"}
 	r.ServeHTTP(rec, req)
+	return rec.Code, rec.Body.String()
+}
+
+// serveBehindStripPrefix sends the request for /pre<path> through http.StripPrefix("/pre", r), RequestURI set as a
+// server sets it: the router gets <path> in the request's URL.
+func serveBehindStripPrefix(r *rux.Router, method, path string) (int, string) {
+	u := reqURL(path)
+	pre := &http.Request{Method: method, URL: &url.URL{Path: "/pre" + u.Path}, Header: http.Header{}, Proto: "HTTP/1.1", RequestURI: "/pre" + u.EscapedPath()}
+	if u.RawPath != "" || encodedMode {
+		pre.URL.RawPath = "/pre" + u.EscapedPath()
+	}
+	rec := httptest.NewRecorder()
+	http.StripPrefix("/pre", r).ServeHTTP(rec, pre)
 	return rec.Code, rec.Body.String()
 }
 
@@ -43,7 +69,14 @@ func build(tb *model.Table, viaGroup []int) *rux.Router {
 		}
 		prefix := model.Pattern{Segs: d.P.Segs[:k]}.String()
 		rest := model.Pattern{Segs: d.P.Segs[k:], Opt: d.P.Opt, TrailSlash: d.P.TrailSlash}.String()
-		r.Group(prefix, func() { model.RegisterOne(r, d, rest, h) })
+		r.Group(prefix, func() {
+			if i%2 == 1 {
+				// a nested group (with a route of its own that no probe asks for) opens and closes first: the
+				// enclosing group's prefix is in force again afterwards
+				r.Group(fmt.Sprintf("/zz-nested-%d", i), func() { r.GET("/decoy", func(c *rux.Context) { c.WriteString("decoy") }) })
+			}
+			model.RegisterOne(r, d, rest, h)
+		})
 	}
 	return r
 }
@@ -103,7 +136,7 @@ func checkProbe(r *rux.Router, tb *model.Table, method, path string) string {
 	}
 	// the same path sent with a superfluous percent escape (an unreserved character escaped): the decoded path is what
 	// the router matches (UseEncodedPath is off here), so the answer is the same
-	if raw := superfluousEscape(path); raw != "" {
+	if raw := superfluousEscape(path); raw != "" && !encodedMode {
 		if u, err := url.ParseRequestURI(raw); err == nil && u.Path == path {
 			rec := httptest.NewRecorder()
 			r.ServeHTTP(rec, &http.Request{Method: method, URL: u, RequestURI: raw, Header: http.Header{}, Proto: "HTTP/1.1"})
@@ -115,6 +148,11 @@ func checkProbe(r *rux.Router, tb *model.Table, method, path string) string {
 		}
 	}
 	code, body := serve(r, method, path)
+	if strings.HasPrefix(path, "/") {
+		if c2, b2 := serveBehindStripPrefix(r, method, path); c2 != code || b2 != body {
+			return fmt.Sprintf("ServeHTTP(%s,%q): %d %q directly, %d %q behind http.StripPrefix(/pre)\n table: %s", method, path, code, body, c2, b2, tb)
+		}
+	}
 	want := "404"
 	if res.Route >= 0 {
 		want = tb.Routes[res.Route].Name()
@@ -139,6 +177,10 @@ func prop(t *rapid.T) {
 	// "a request is dispatched to a route only if that route allows the method" also holds for the '/*' routes
 	// of the fallback option
 	tb.Opts.Fallback = rapid.IntRange(0, 3).Draw(t, "fallback") == 0
+	// UseEncodedPath: the escaped path is "the path" then (one table in five)
+	tb.Opts.EncodedPath = rapid.IntRange(0, 4).Draw(t, "useEncodedPath") == 0
+	encodedMode = tb.Opts.EncodedPath
+	defer func() { encodedMode = false }()
 	cfg := model.TableCfg{MaxRoutes: ev.Pick(8, 14), Gen: model.GenCfg{MaxSegs: ev.Pick(3, 4), RichLits: true}, Fallback: tb.Opts.Fallback}
 	tb.Routes = model.GenRoutes(t, cfg, tb.Opts.Strict)
 	if len(tb.Routes) == 0 {
@@ -185,6 +227,14 @@ func prop(t *rapid.T) {
 			method = rapid.SampledFrom(tb.Routes[target].Methods).Draw(t, "method")
 		} else {
 			method = rapid.SampledFrom(append(append([]string{}, model.Methods...), "PURGE")).Draw(t, "method")
+		}
+		if tb.Opts.EncodedPath {
+			esc := (&url.URL{Path: path}).EscapedPath()
+			if u := reqURL(esc); u.EscapedPath() != esc || !strings.HasPrefix(esc, "/") {
+				ev.Class("skipped:escaped-path-does-not-survive-parsing")
+				continue
+			}
+			path = esc
 		}
 		if !model.Stable(path, tb.Opts.Strict) {
 			ev.Class("skipped:unstable-path")
